@@ -62,6 +62,24 @@ def fingerprint(obj, _seen=None, _depth=0):
             {k: fingerprint(v, _seen, _depth + 1) for k, v in sorted(d.items(), key=lambda kv: str(kv[0]))}]
 
 
+def class_state():
+    """mutable class-level attributes of the engine data type classes and the configuration module: state that no schema
+    object owns, but that a schema's verdict can depend on"""
+    import importlib
+    out = {}
+    for modname in ("pandera.engines.pandas_engine", "pandera.engines.numpy_engine", "pandera.dtypes", "pandera.engines.engine"):
+        try:
+            mod = importlib.import_module(modname)
+        except Exception:  # noqa: BLE001
+            continue
+        for nm, cls in sorted(vars(mod).items()):
+            if isinstance(cls, type) and cls.__module__ == modname:
+                for k, v in sorted(vars(cls).items()):
+                    if isinstance(v, (dict, list, set)) and not k.startswith("__") and k not in ("_registry", "_registered_dtypes", "_base_pandera_dtypes"):
+                        out[f"{modname}.{nm}.{k}"] = fingerprint(v)
+    return json.dumps(out, sort_keys=True, default=str)
+
+
 def fp(obj):
     return json.dumps(fingerprint(obj), sort_keys=True, default=str)
 
@@ -96,7 +114,8 @@ def gen_schema_case(rng):
     # joint uniqueness over declared columns (read by the strategies and the uniqueness check)
     S["unique"] = rng.sample(declared, rng.randint(1, min(2, len(declared)))) if declared and rng.random() < 0.4 else []
     kind = rng.random()
-    c["extras"] = {"tz_agnostic": kind < 0.12, "coerce": rng.random() < 0.3, "raising_parser": rng.random() < 0.3}
+    c["extras"] = {"tz_agnostic": kind < 0.12, "coerce": rng.random() < 0.3, "raising_parser": rng.random() < 0.3,
+                   "tz_kwargs": rng.random() < 0.15}
     return c
 
 
@@ -126,6 +145,12 @@ def build_schema(c):
     if c["extras"]["tz_agnostic"]:
         schema = schema.add_columns({"tzcol": pa.Column(pandas_engine.DateTime(time_zone_agnostic=True),
                                                          required=False)})
+    if c["extras"].get("tz_kwargs"):
+        # a coercing tz-aware column with its own localisation options next to one with the default options
+        schema = schema.add_columns({
+            "tzk": pa.Column(pandas_engine.DateTime(tz="Europe/Berlin", tz_localize_kwargs={"nonexistent": "shift_forward"}),
+                             coerce=True, required=False),
+            "tzd": pa.Column(pandas_engine.DateTime(tz="Europe/Berlin"), coerce=True, required=False)})
     return schema
 
 
@@ -145,6 +170,14 @@ def probes(c, rng):
         good = good.copy()
         good["zz_parsed"] = [str(i) for i in range(len(good))]
     out = [good, bad]
+    if c["extras"].get("tz_kwargs") and len(good):
+        # naive timestamps inside the daylight-saving gap: only the column with `nonexistent=` can localise them
+        gap = good.copy()
+        gap["tzk"] = pd.Series(pd.to_datetime(["2021-03-28 02:30"] * len(gap)), index=gap.index)
+        out.append(gap)
+        gap2 = good.copy()
+        gap2["tzd"] = pd.Series(pd.to_datetime(["2021-03-28 02:30"] * len(gap2)), index=gap2.index)
+        out.append(gap2)
     if c["extras"]["tz_agnostic"]:
         tz = good.copy()
         tz["tzcol"] = pd.Series(pd.date_range("2020-01-01", periods=len(tz), tz="Europe/Berlin"), index=tz.index)
@@ -160,6 +193,7 @@ def verdict(schema, df, lazy=False):
 
 
 OPS = ["validate_probe0", "validate_probe1", "validate_probe0_lazy", "validate_probe1_lazy", "validate_probe2",
+       "validate_probe3", "validate_probe2_lazy",
        "to_yaml", "to_json", "to_script", "statistics", "repr", "str", "eq", "copy", "deepcopy",
        "add_columns", "remove_columns", "update_column", "rename_columns", "select_columns", "set_index",
        "reset_index", "coerce_dtype", "strategy", "hash_checks", "column_validate", "get_dtypes", "example", "validate_raising_parser",
@@ -272,6 +306,7 @@ def run_history(rep, c, rng, length):
     prs = probes(c, rng)
     base = fingerprint(schema)
     base_s = json.dumps(base, sort_keys=True, default=str)
+    base_cls = class_state()
     base_verdicts = [verdict(schema, p) for p in prs]
     # the baseline verdict run must itself leave the schema alone
     after0 = fingerprint(schema)
@@ -294,6 +329,12 @@ def run_history(rep, c, rng, length):
                                  region=region_of(paths, op, c))
             return
         rep.count("op:" + op)
+    if class_state() != base_cls:
+        a_, b_ = json.loads(base_cls), json.loads(class_state())
+        changed = [k for k in sorted(set(a_) | set(b_)) if a_.get(k) != b_.get(k)]
+        rep.property_failure({"case": c, "history": list(hist)},
+                             f"class-level state of the data type classes changed over the history: {changed[:4]}")
+        return
     verdicts = [verdict(schema, p) for p in prs]
     if verdicts != base_verdicts:
         rep.property_failure({"case": c, "history": list(hist)},
